@@ -581,6 +581,11 @@ func (en *Env) evalCall(x ECall) Term {
 		a := args()
 		c.ss.NeedBox(SBool)
 		return Term{app("unbox!Bool", a[0].S), SBool, tBool}
+	case "asstr": // the string held by an interface value (meaningful when typeis(x, "string"))
+		a := args()
+		srt := c.ss.SeqOf(SInt)
+		c.ss.NeedBox(srt)
+		return Term{app("unbox!"+string(srt), a[0].S), srt, types.Typ[types.String]}
 	case "asint": // the int held by an interface value (meaningful when typeis(x, "int"))
 		a := args()
 		c.ss.NeedBox(SInt)
